@@ -281,8 +281,39 @@ def tables_after_use(ctx):
     ctx.engine("tables-after-use", odd_names=len(odd))
 
 
+def pairs_task(ctx, pairs):
+    """every (element, permitted child) pair of the shipped tables in a minimal valid tree of its own: what single-node
+    validation of the parent allows, whole-tree validation has to be able to accept - in that place, under that parent"""
+    T = treegen.tables()
+    n = 0
+    for h, e in pairs:
+        ps = T.pair_spec(h, e)
+        if ps is None:
+            ctx.count("pair-without-finite-tree")
+            continue
+        n += 1
+        sp = ps[0]
+        Node.store.clear()
+        t = treegen.build(sp)
+        try:
+            validate.tree(t)
+            errs = []
+            validate.tree(t, errs)
+            if errs:
+                ctx.fail(f"pair-tree-rejected:{h}/{e}", {"tree": sp}, f"{e} under {h}: collecting mode reports {[x[1] for x in errs][:3]}")
+        except Exception as ex:  # noqa
+            ctx.fail(f"pair-tree-rejected:{h}/{e}", {"tree": sp}, f"{e} under {h}: a minimal tree that every rule involved "
+                     f"allows is rejected by whole-tree validation: {type(ex).__name__}: {str(ex)[:120]}")
+    ctx.bulk(n, n)
+    ctx.count("element-child-pair-in-a-valid-tree", n)
+    ctx.engine("pair-trees", pairs=n, exhaustive=True)
+
+
 def run(ctx):
     tables_task(ctx, None)
+    T0 = treegen.tables()
+    pairs = [(h, e) for h in sorted(T0.known) for e in T0.usable(T0.known[h])]
+    ctx.pmap(pairs_task, [pairs[i::16] for i in range(16) if pairs[i::16]])
     T = treegen.tables()
     els = sorted(e for e in T.known if T.cost[e] < treegen.INF)
     per = 5 if ctx.quick else 200
